@@ -62,4 +62,13 @@ def listingOf (f : Fss) (p : Str) (e : Multi.Entry) : List Name :=
   | .ok (.names l) => l
   | _ => []
 
+/-- what member `e` answers to `listdir(p)` -/
+def listAnswer (f : Fss) (p : Str) (e : Multi.Entry) : Out := (Ref.step (f e.fs) (.listdir p)).2
+
+/-- the first member, in the given (priority) order, that contains the path: its `listdir` does
+not answer `ResourceNotFound` -/
+def firstHolder (f : Fss) (p : Str) : List Multi.Entry → Option Multi.Entry
+  | [] => none
+  | e :: es => if listAnswer f p e = .err .ResourceNotFound then firstHolder f p es else some e
+
 end Fs.RouteSpec
